@@ -198,9 +198,64 @@ func c06History(c *vc.Ctx, idx int) {
 	paidSeen := map[uint64]bool{}
 	canceledSeen := map[uint64]bool{}
 	abandoned, restarts, forced := 0, 0, 0
+	burstAt := 18 + idx%7
+	var burstIDs []uint64
+	var burstProc *procM
+	burstFinal := false
 	for blk := 0; blk < cfg.Blocks && !lh.failed; blk++ {
 		if !b.refreshGroup() {
 			return
+		}
+		// ---- directed burst: ten withdrawals are requested, processed as one batch, mined, voted and finalised, and the
+		// block that finalises them also refunds a handful of undecodable ones: more than 8 'paid' are due together with
+		// 'refund' notices, i.e. the two kinds compete for the shared cap ----
+		switch blk - burstAt {
+		case 0:
+			burstIDs = nil
+			for k := 0; k < 10; k++ {
+				addr, _ := world.P2WPKH(world.Derive(c.Seed, "c06burst", int(wm.next)*7+idx)[:20], regtest)
+				b.bridgeReq.Withdraws = append(b.bridgeReq.Withdraws, &goattypes.WithdrawalRequest{Id: wm.next, Amount: 60_000, TxPrice: 40, Address: addr})
+				burstIDs = append(burstIDs, wm.next)
+				wm.next++
+			}
+			lh.logf("EL: burst of ten withdrawals")
+		case 1:
+			if op := wm.processOp(burstIDs, ""); op != nil {
+				b.ops = append(b.ops, op)
+			}
+		case 2:
+			for _, p := range wm.procs {
+				if !p.Done && len(p.Ids) == len(burstIDs) && len(burstIDs) > 0 && p.Ids[0] == burstIDs[0] {
+					burstProc = p
+					cd := p.Cands[0]
+					var tx wireMsgTx
+					if err := tx.DeserializeNoWitness(bytes.NewReader(cd.Raw)); err == nil {
+						blkb := b.bc.Mine([]*wireMsgTx{b.bc.CoinbaseTx(b.bc.Tip + 1), b.bc.FillerTx(), &tx})
+						cd.Height, cd.Index = blkb.Height, 2
+					}
+				}
+			}
+			if op := b.hashesOp("next"); op != nil {
+				b.ops = append(b.ops, op)
+			}
+		case 3, 4, 5, 6, 7, 8, 9, 10, 11, 12:
+			if burstProc != nil && !burstProc.Done && burstProc.Cands[0].Height != 0 {
+				if burstProc.Cands[0].Height > b.votedTip {
+					if op := b.hashesOp("next"); op != nil {
+						b.ops = append(b.ops, op)
+					}
+				} else if !burstFinal {
+					if op := wm.finalizeOp(burstProc, burstProc.Cands[0], ""); op != nil {
+						b.ops = append(b.ops, op)
+						burstFinal = true
+						for k := 0; k < 5; k++ {
+							b.bridgeReq.Withdraws = append(b.bridgeReq.Withdraws, &goattypes.WithdrawalRequest{Id: wm.next, Amount: 40_000, TxPrice: 3, Address: fmt.Sprintf("junk-burst-%d", wm.next)})
+							wm.next++
+						}
+						lh.logf("finalising the ten-withdrawal batch together with five refunds")
+					}
+				}
+			}
 		}
 		if blk%2 == 0 {
 			c03Gen(b, blk, muts)
@@ -466,7 +521,7 @@ func c06History(c *vc.Ctx, idx int) {
 func init() {
 	vc.Register(&vc.Check{
 		ID: "C06", Title: "Consensus-to-execution hand-over is exactly-once, ordered and gap-free", Level: "exploration",
-		Rule: "one case = one history (80/200 blocks + drain) that fills every queue at once: Bitcoin block hashes voted up to 16 at a time (and hostile batches that start at the tip, after a gap, rewrite an old height, carry 17 hashes), deposits (bursts above the cap of 8), withdrawals paid and refunded (cap 8 shared), reward claims and matured unlocks (bursts above 16), with failing relayer messages, 1..3 abandoned proposal rounds (prepared, sometimes processed, never finalised) before every 4th block, a node restart every 11th, and every 9th block a payload whose system transactions were dropped/duplicated/altered/withheld (the last one, or every locking hand-over) forced into FinalizeBlock; " +
+		Rule: "one case = one history (80/200 blocks + drain) that fills every queue at once: Bitcoin block hashes voted up to 16 at a time (and hostile batches that start at the tip, after a gap, rewrite an old height, carry 17 hashes), deposits (bursts above the cap of 8), withdrawals paid and refunded (cap 8 shared; a directed burst finalises a ten-withdrawal batch in the block that also refunds five), reward claims and matured unlocks (bursts above 16), with failing relayer messages, 1..3 abandoned proposal rounds (prepared, sometimes processed, never finalised) before every 4th block, a node restart every 11th, and every 9th block a payload whose system transactions were dropped/duplicated/altered/withheld (the last one, or every locking hand-over) forced into FinalizeBlock; " +
 			"owed log = generator ground truth at acceptance time; delivered log = leading system txs of finalised payloads whose block message succeeded; checker: per kind delivered is exactly the prefix of owed (once, FIFO, nothing invented), caps 1/8/8/16/16, consecutive nonces per module from 0, in-block layout, tampered payloads fail and consume nothing, abandoned rounds change no queue or nonce, voted tip = accepted batches and no voted hash is rewritten, and after a drain phase delivered = owed. Non-trivial = a finalised payload with system txs; distinct = per-kind counts in the block.",
 		Assume: []string{"'never dropped' is judged as bounded progress (drain of backlog/8 + remaining heights + 6 blocks, extended by at most 60 blocks while requested unlocks have not matured or owed items are outstanding)", "unlocks are owed from the moment they enter the delivery queue (C15 judges when they may)"},
 		Cases:  func(tier string) int { return map[string]int{"quick": 12, "thorough": 150}[tier] },
